@@ -91,12 +91,20 @@ MinSym(len, x) == IF IsSmall(x) /\ x.n < len THEN x.n ELSE len     \* min(len, x
 GB == [i \in 1..Guard |-> (GBCode \div (256 ^ (Guard - i))) % 256]
 Families == {"new", "newarr", "malloc"}
 AllocEps == {"new", "newdbg", "newnt", "newarr", "newarrdbg", "newarrnt", "malloc"}
-RelEps   == {"delete", "deletearr", "free"}
-FamOf(ep) == CASE ep \in {"new", "newdbg", "newnt", "delete"} -> "new"
-               [] ep \in {"newarr", "newarrdbg", "newarrnt", "deletearr"} -> "newarr"
+\* every form of operator delete / delete[] the library replaces: plain, sized (void*, size_t), nothrow placement (void*, nothrow_t) and
+\* the two debug placement forms (void*, const char*, size_t / int) - the placement forms are what the runtime calls when a
+\* constructor throws inside the matching new-expression.  A form releases into the family of its operator, whatever its arguments.
+DelForms    == {"delete", "deletesz", "deletent", "deletedbg", "deletedbgi"}
+DelArrForms == {"deletearr", "deletearrsz", "deletearrnt", "deletearrdbg", "deletearrdbgi"}
+RelEps   == DelForms \cup DelArrForms \cup {"free"}
+RelGen   == {"delete", "deletearr", "free"}      \* the forms TLC enumerates (the others are substituted for them by the drivers)
+FamOf(ep) == CASE ep \in {"new", "newdbg", "newnt"} \cup DelForms -> "new"
+               [] ep \in {"newarr", "newarrdbg", "newarrnt"} \cup DelArrForms -> "newarr"
                [] OTHER -> "malloc"
 Throws(ep) == ep \in {"new", "newdbg", "newarr", "newarrdbg"}       \* bad_alloc instead of NULL
-\* allocator objects: per family a plain one, a distinct object carrying the same name, and a wrapper around the plain one
+\* allocator objects: per family a plain one, a distinct object carrying the same name ("twin"), a wrapper around the plain one, and a
+\* distinct object carrying the same name but other labels for its allocation and release functions ("relabel": alloc_name() /
+\* free_name() are texts for reports - the family of an allocator is its name())
 Obj(f, v)  == [fam |-> f, var |-> v]
 Actual(o)  == IF o.var = "wrap" THEN Obj(o.fam, "plain") ELSE o     \* actualAllocator()
 NameOf(o)  == IF o.var = "wrap" THEN "Wrapper" ELSE o.fam           \* name(): plain and twin share it
@@ -244,8 +252,8 @@ Next == \/ \E ep \in Eps, s \in Slots, z \in AllSizes, f \in Faults : Alloc(ep, 
         \/ \E s \in Slots, z \in AllSizes, f \in Faults : ReallocNull(s, z, f)
         \/ \E s \in Slots : ReallocUnknown(s)
         \/ \E s \in Slots, v \in Vals : \E pos \in 0..(IF blk[s] = NoBlk THEN 0 ELSE blk[s].size + Guard - 1) : Write(s, pos, v)
-        \/ \E rel \in RelEps, s \in Slots, off \in 0..MaxOff : Release(rel, s, off)
-        \/ \E rel \in RelEps : ReleaseForeign(rel) \/ ReleaseNull(rel)
+        \/ \E rel \in RelGen, s \in Slots, off \in 0..MaxOff : Release(rel, s, off)
+        \/ \E rel \in RelGen : ReleaseForeign(rel) \/ ReleaseNull(rel)
         \/ \E b \in BOOLEAN : SetTypeCheck(b)
         \/ \E p \in {"disabled", "enabled", "checking"} : SetPeriod(p)
         \/ \E f \in Families, v \in Variants : SetAlloc(f, v)
@@ -253,7 +261,7 @@ Spec == Init /\ [][Next]_vars
 
 -----------------------------------------------------------------------------
 \* Properties
-TypeOK == /\ typeCheck \in BOOLEAN /\ \A f \in Families : cur[f] \in {"plain", "twin", "wrap"}
+TypeOK == /\ typeCheck \in BOOLEAN /\ \A f \in Families : cur[f] \in {"plain", "twin", "wrap", "relabel"}
           /\ res.ret \in {"ptr", "null", "badalloc", "void"}
           /\ res.rep \in {"none", "nonallocated", "mismatch", "corruption"}
           /\ res.over \in {"yes", "na"}
@@ -288,5 +296,5 @@ ReportExact == last.op = "release" => res.rep = PropertyOutcome
 WritesAreSilent == last.op = "write" => res.rep = "none"
 Poisoned == (last.op = "release" /\ last.cls = "outstanding") <=> res.over = "yes"
 \* the name of the actual allocator is the family for every allocator object (wrappers, twins)
-FamilyIsActualName == \A f \in Families, v \in {"plain", "twin", "wrap"} : NameOf(Actual(Obj(f, v))) = f
+FamilyIsActualName == \A f \in Families, v \in {"plain", "twin", "wrap", "relabel"} : NameOf(Actual(Obj(f, v))) = f
 =============================================================================
